@@ -84,7 +84,8 @@ def check_case(schema, tname, val, codec=None, rw=None):
         # built from the *raw* values: fields the generator left unset stay untouched (defaults), which is a
         # different internal state from assigning the default explicitly
         A, B = codec.build(tname, raw_a), codec.build(tname, raw_b)
-        enc_a = A.encode('<')
+        # (the source is not read, encoded or printed before the copy: that would materialise its untouched fields)
+        enc_a = rw.encode(tname, a, '<')[0]
     except Exception as ex:
         return ("building the messages raised %s: %s" % (type(ex).__name__, ex), {'exception': common.exc_info(ex)})
     try:
@@ -94,6 +95,9 @@ def check_case(schema, tname, val, codec=None, rw=None):
     try:
         if not pyh.values_equal(snap(B), a):
             return fail("after b.copy_from(a), b differs from a", b=ir.value_to_json(snap(B)), a=ir.value_to_json(a))
+        if B.encode('<') != enc_a:
+            return fail("after b.copy_from(a), b does not encode to a's canonical bytes", observed=B.encode('<').hex(),
+                        expected=enc_a.hex())
         if not pyh.values_equal(snap(A), a):
             return fail("copy_from changed its source", source=ir.value_to_json(snap(A)), a=ir.value_to_json(a))
         for e in '<>':
@@ -236,7 +240,8 @@ def body(case, stats):
 def worker(widx, seed, tier, stats):
     n = {'quick': 200, 'thorough': 6000}[tier]
     avoid = common.avoid_set(ID)
-    opts = gen.GenOpts(avoid=avoid, allow_unset=True, unset_bias=(3, 6), big_sizes=False, aligned_greedy=False)
+    opts = gen.GenOpts(avoid=avoid, allow_unset=True, unset_bias=(3, 6), big_sizes=False, aligned_greedy=False,
+                       long_fixed_bias=4)
     runner.run_given(cases(opts), body, seed, n, stats)
 
 
